@@ -192,7 +192,14 @@ def write_replay(prop, seed, n, data):
 def write_evidence(prop, tier, seed, coverage, assumptions, wall, violations):
     d = os.path.join(VERIF, 'evidence')
     os.makedirs(d, exist_ok=True)
-    ev = {'property_id': prop, 'tier': tier, 'seed': seed, 'level': 'proof', 'coverage': coverage,
+    level = 'proof'
+    if not (coverage.get('discharged', 0) >= 1 and coverage.get('discharged') == coverage.get('obligations')):
+        # the proof obligations do not all check on this tree: this run is not proof-level evidence
+        level = 'other'
+        coverage = dict(coverage)
+        coverage['explanation'] = ('proof obligations no longer check on this tree (%s of %s discharged): %s'
+                                   % (coverage.get('discharged'), coverage.get('obligations'), '; '.join(str(x)[:300] for x in coverage.get('no_longer_checks', [])) or 'see no_longer_checks'))
+    ev = {'property_id': prop, 'tier': tier, 'seed': seed, 'level': level, 'coverage': coverage,
           'assumptions': assumptions, 'wall_s': round(wall, 2), 'violations': violations}
     with open(os.path.join(d, prop + '.json'), 'w') as f:
         json.dump(ev, f, indent=1, default=str)
